@@ -21,10 +21,12 @@ SeqsUpTo(S, n) == UNION {[1..k -> S] : k \in 0..n}
 
 \* general vocabulary (no locks)
 OpsA == {Resched, SleepN(1), SleepOp(0), SelT(2), SelFD("a", NoTO), SelFD("a", 1), Block, Raise,
-         Call(<<SleepOp(1)>>, "ret"), Call(<<>>, "throw"), Call(<<>>, "end")}
+         Call(<<SleepOp(1)>>, "ret"), Call(<<>>, "throw"), Call(<<>>, "end"),
+         Call(<<SleepOp(1)>>, "throw"), Call(<<SleepOp(0), SleepOp(1)>>, "end")}
 ProgsA1 == SeqsUpTo(OpsA, 1)
 ProgsA2 == SeqsUpTo(OpsA, 2)
-OpsQ == {Resched, SleepN(1), SelFD("a", 1), Block, Raise, Call(<<SleepOp(1)>>, "ret"), Call(<<>>, "throw")}
+OpsQ == {Resched, SleepN(1), SelT(2), SelFD("a", 1), Block, Raise, Call(<<SleepOp(1)>>, "ret"), Call(<<>>, "throw"),
+         Call(<<SleepOp(1)>>, "throw")}
 ProgsQ1 == SeqsUpTo(OpsQ, 1)
 ProgsQ2 == SeqsUpTo(OpsQ, 2)
 \* socket helpers: Recv with/without timeout; Send with per-call socket outcomes (F full, P partial, B would block)
